@@ -74,37 +74,17 @@ theorem getAttr_ok {s : St} {now : Nat} {n : Node} {s' : St} {a : Attrs} (h : ge
     simp only [Prod.mk.injEq, Except.ok.injEq] at h
     exact ⟨i, by simpa using hi, h.2.symm⟩
 
-theorem getAttr_err {s : St} {now : Nat} {n : Node} {s' : St} {st : Nat} (h : getAttr s now n = (s', .error st)) :
-    ∃ e, Fs.lstat s.fs (fsPath n.path) = .error e ∧ st = mapErrno e := by
+theorem getAttr_err {s : St} {now : Nat} {n : Node} {s' : St} {e : Fs.Errno} (h : getAttr s now n = (s', .error e)) :
+    Fs.lstat s.fs (fsPath n.path) = .error e := by
   unfold getAttr at h
   simp only at h
   split at h
-  · rename_i e he
+  · rename_i e' he
     simp only [Prod.mk.injEq, Except.error.injEq] at h
-    exact ⟨e, by simpa using he, h.2.symm⟩
+    rw [← h.2]; simpa using he
   · simp at h
 
 theorem mapErrno_ne_zero (e : Fs.Errno) : mapErrno e ≠ 0 := by cases e <;> simp [mapErrno]
-
-theorem getAttr_err_ne_zero {s : St} {now : Nat} {n : Node} {s' : St} {st : Nat} (h : getAttr s now n = (s', .error st)) :
-    st ≠ 0 := by
-  obtain ⟨e, _, hst⟩ := getAttr_err h
-  rw [hst]; exact mapErrno_ne_zero e
-
-theorem lookupPath_err_ne_zero {s : St} {now : Nat} {p : Bytes} {s' : St} {st : Nat}
-    (h : lookupPath s now p = (s', .error st)) : st ≠ 0 := by
-  unfold lookupPath at h
-  split at h
-  · simp only [Prod.mk.injEq, Except.error.injEq] at h; omega
-  · simp only at h
-    split at h
-    · simp at h
-    · simp only [Prod.mk.injEq, Except.error.injEq] at h; omega
-    · split at h
-      · rename_i e _
-        simp only [Prod.mk.injEq, Except.error.injEq] at h
-        rw [← h.2]; exact mapErrno_ne_zero e
-      · simp at h
 
 theorem lookupEach_fs (s : St) (now : Nat) (dir : Bytes) (names : List Bytes) :
     (lookupEach s now dir names).1.fs = s.fs := by
